@@ -7,6 +7,15 @@ list operation) is reachable after the first write of relation state, unless it 
   E3 cannot reject   removal of current members / re-rooting under the own WBS root (assumption table, structurally checked).
 Multi-receiver operations (list << x, bulk attribute assignment, the constructor with several relations) are sequences of
 independently atomic setter calls: reported, and recorded as known findings.
+
+Dedicated obligations: move() validates everything that can fail after the first list change (requirements as implications over
+guard formulas, so any()/guard clauses/hoisted anchors/spliced helpers are the same thing); insert() resolves a bounded anchor from
+the list without the task before the attach (conditional expression, if/else diamond, path condition with two attach sites,
+accumulator loop); sort() builds the ordering on a copy (list.sort() in place is refuted: a failing comparison leaves the shared
+list half sorted); reorder() works on copies; the group id check must count different incoming OBJECTS with equal ids (a
+container keyed by task id before the count makes it vacuous: refuted).
+Not decided: a negative insert index that is not normalised only fails before the attach (IndexError, nothing changed) - accepted;
+anchors computed by try/except; id-count comparisons in other idioms (Counter, sorting) are UNDECIDED.
 """
 from __future__ import annotations
 
@@ -151,9 +160,40 @@ def _events(ctx, f, eff):
     return W, R
 
 
+def _wbs_removers(ctx):
+    """the functions that take a task out of a WBS by descending the tree: WBS.__remove and the private helpers of wbs.py it
+    delegates to - or, when that private method was moved or renamed, the private function(s) WBS.remove delegates to"""
+    cached = getattr(ctx, '_c15_removers', None)
+    if cached is not None:
+        return cached
+    prog = ctx.prog
+    w = prog.funcs.get('wbs.WBS.__remove')
+    if w is not None:
+        todo = [w]
+    else:
+        todo = [t for ci in ctx.cg.calls_in(prog.func('wbs.WBS.remove')) for t in ci.targets
+                if t is not None and ci.kind == 'call' and t.module.name == 'wbs' and t.name.startswith('_')]
+    seen_f = []
+    while todo:
+        g = todo.pop()
+        if any(g is x for x in seen_f) or len(seen_f) > 6:
+            continue
+        seen_f.append(g)
+        for ci in ctx.cg.calls_in(g):
+            for t in ci.targets:
+                if t is not None and t.module.name == 'wbs' and t.name.startswith('_') and t.name != '_root' and ci.kind == 'call' \
+                        and not (t.name.startswith('__') and t.name.endswith('__')):
+                    todo.append(t)
+    ctx._c15_removers = seen_f
+    return seen_f
+
+
 def order(ctx, o, eff, q):
     prog = ctx.prog
-    f = prog.func(q)
+    if q == 'wbs.WBS.__remove' and q not in prog.funcs and _wbs_removers(ctx):
+        f = _wbs_removers(ctx)[0]
+    else:
+        f = prog.func(q)
     cfg = cfg_of(f)
     W, R = _events(ctx, f, eff)
     if not W:
@@ -162,7 +202,8 @@ def order(ctx, o, eff, q):
     n_ok = 0
     reported = set()
     for rn, rnode, rtext, rkind, rcallee in R:
-        before = [w for w in W if (w[0] is not rn and cfg.can_reach(w[0], rn)) or (w[0] is rn and cfg.can_reach(rn, rn))]
+        before = [w for w in W if (w[0] is not rn and cfg.can_reach(w[0], rn)) or
+                  (w[0] is rn and (cfg.can_reach(rn, rn) or _in_comprehension(f, w[1]) or _in_comprehension(f, rnode)))]
         if not before:
             n_ok += 1
             continue
@@ -173,7 +214,7 @@ def order(ctx, o, eff, q):
             continue
         key = _construct(f, w, rnode, rkind, rcallee)
         if w[0] is rn:
-            fos = cfg.enclosing_fors(rn)
+            fos = cfg.enclosing_fors(rn) or _in_comprehension(f, rnode)
             key = "multi-receiver loop applying a rejecting setter" if fos else key
         elif ctor_like(f):
             key = "constructor applies several relation setters in sequence"
@@ -185,6 +226,17 @@ def order(ctx, o, eff, q):
                                 f"earlier change in place")
     if not o.refuted:
         o.site(f, f.node, f"{len(W)} write event(s), {len(R)} raising event(s): all raising events precede the first write or are exempt")
+
+
+def _in_comprehension(f, node) -> bool:
+    """node is evaluated once per element of a comprehension / generator expression (an implicit loop inside one statement)"""
+    for n in walk_no_nested(f.node):
+        if isinstance(n, (ast.ListComp, ast.SetComp, ast.GeneratorExp, ast.DictComp)):
+            inner = [n.elt] if not isinstance(n, ast.DictComp) else [n.key, n.value]
+            inner += [c for g in n.generators for c in g.ifs] + [g.iter for g in n.generators[1:]]
+            if any(x is node for part in inner for x in ast.walk(part)):
+                return True
+    return False
 
 
 def ctor_like(f):
@@ -212,7 +264,8 @@ def _wtext(w):
 def exempt(ctx, f, eff, w, r):
     rn, rnode, rtext, rkind, rcallee = r
     prog = ctx.prog
-    if rkind == 'call' and rcallee is not None and rcallee.qual in NON_REJECTING:
+    removers = _wbs_removers(ctx)
+    if rkind == 'call' and rcallee is not None and (rcallee.qual in NON_REJECTING or any(rcallee is x for x in removers)):
         return f"E3 {rcallee.name} cannot reject here"
     if rkind == 'call' and rcallee is not None and rcallee.name in ('__iter__', '__len__', '__getitem__', '__contains__'):
         if rcallee.name == '__getitem__' and f.qual == 'task._ChildrenList.insert':
@@ -238,8 +291,10 @@ def exempt(ctx, f, eff, w, r):
     if f.qual == 'task._ChildrenList.insert' and rkind == 'call' and rcallee is not None and rcallee.qual in (
             'task._ChildrenList.move', 'task._to_list'):
         return "E1 move() is called with an anchor resolved before the attach (obligation insert_resolves_anchor_first)"
-    if f.qual in ('task._TaskList.remove_all', 'wbs.WBS.remove_all', 'wbs.WBS.remove', 'wbs.WBS.__remove') and rkind == 'call' and \
-            rcallee is not None and (rcallee.qual in NON_REJECTING or rcallee.name in ('remove', '__remove', '_check_not_none')):
+    if (f.qual in ('task._TaskList.remove_all', 'wbs.WBS.remove_all', 'wbs.WBS.remove', 'wbs.WBS.__remove') or any(f is x for x in removers)) \
+            and rkind == 'call' and rcallee is not None and \
+            (rcallee.qual in NON_REJECTING or (rcallee.name in ('remove', '__remove', '_check_not_none') and rcallee.qual != 'wbs.WBS.remove')
+             or any(rcallee is x for x in removers)):
         return "E3 removal of current members cannot be rejected"
     return None
 
@@ -251,8 +306,7 @@ def _is_reroot(ctx, f, node) -> bool:
     if match("self._Task__wbs._root().children.append(self)", node):
         return True
     try:
-        ex = Expander(ctx.prog, f, ctx.typer, inline=False)
-        return bool(match("self._Task__wbs._root().children.append(self)", ex.expand(node)))
+        return bool(match("self._Task__wbs._root().children.append(self)", T.expand_call(ctx.prog, f, ctx.typer, node)))
     except Exception:
         return False
 
@@ -294,18 +348,10 @@ def cannot_reject(ctx, o, eff):
             o.site(p, rr[0], "re-rooting targets self.__wbs._root()")
         else:
             o.refute(p, rr[0], rr[0], "re-rooting is attempted without a WBS")
-    w = prog.func('wbs.WBS.__remove')
-    # the removal itself may sit in a private helper of WBS that __remove delegates to
-    todo, seen_f = [w], []
-    while todo:
-        g = todo.pop()
-        if any(g is x for x in seen_f) or len(seen_f) > 6:
-            continue
-        seen_f.append(g)
-        for ci in ctx.cg.calls_in(g):
-            for t in ci.targets:
-                if t is not None and t.cls == w.cls and t.module is w.module and t.name.startswith('_') and ci.kind == 'call':
-                    todo.append(t)
+    seen_f = _wbs_removers(ctx)
+    if not seen_f:
+        prog.func('wbs.WBS.__remove')        # anchor missing
+    w = seen_f[0]
     hit = False
     for g in seen_f:
         exw = Expander(prog, g, ctx.typer, inline=False)
@@ -437,6 +483,7 @@ def _duplicate_id_check(ctx, h):
     (True, None, None) | (False, node, (construct, msg)) | (None, node, msg)"""
     tcs = _truth_conditions(ctx, h)
     cands = []
+    wrong = None
     for path in tcs:
         for t, p in path:
             t, p = facts.norm_cond(t, p)
@@ -457,13 +504,21 @@ def _duplicate_id_check(ctx, h):
                 cands.append(t)
                 differs = (op is ast.Eq and not p) or (op in (ast.Lt, ast.Gt) and p and ((op is ast.Lt) == ids_left))
                 if _keyed_by_task_id(tasks_side) or _keyed_by_task_id(idsrc):
-                    return False, h.node, ('duplicates inside the argument',
+                    wrong = wrong or (False, h.node, ('duplicates inside the argument',
                                            f"the incoming tasks are collected in a container keyed by task id (`{src(tasks_side)[:70]}`) before "
                                            f"their ids are counted: two different new tasks with the same id collapse into one, the duplicate "
-                                           f"check `{src(t)[:60]}` can never fire and the second task is rejected only after the first was attached")
+                                           f"check `{src(t)[:60]}` can never fire and the second task is rejected only after the first was attached"))
+                    continue
                 parts = facts.comp_parts(idsrc)
-                if parts and isinstance(parts[0], ast.Attribute) and parts[0].attr == 'id' and isinstance(parts[1], ast.Name) and                         isinstance(parts[0].value, ast.Name) and parts[0].value.id == parts[1].id and not parts[3] and                         same(parts[2], tasks_side) and differs:
-                    return True, None, None
+                if parts and isinstance(parts[0], ast.Attribute) and parts[0].attr == 'id' and isinstance(parts[1], ast.Name) and                         isinstance(parts[0].value, ast.Name) and parts[0].value.id == parts[1].id and not parts[3] and                         same(parts[2], tasks_side):
+                    if differs:
+                        return True, None, None
+                    wrong = wrong or (False, h.node, ('duplicates inside the argument',
+                                           f"the id-count comparison `{'' if p else 'not '}{src(t)[:80]}` does not answer True when the number of "
+                                           f"distinct ids is smaller than the number of new tasks: two new tasks with equal ids pass the check "
+                                           f"and the second is rejected after the first was attached"))
+    if wrong:
+        return wrong        # no answer of the helper compares the two counts the right way round
     if cands:
         return None, h.node, f"id-count comparison `{src(cands[0])[:80]}` in a form the rule does not recognise"
     # closed world: every answer of the helper was collected and none compares a number of distinct ids with a number of tasks
